@@ -70,9 +70,12 @@ class VOb(Value):
 
 class VTy(Value):
     kind = 'ty'
+    cls = None      # 'rigid' for the images of a functor into rigid types (decides what << and >> mean)
 
-    def __init__(self, t):
+    def __init__(self, t, cls=None):
         self.t = t
+        if cls is not None:
+            self.cls = cls
 
     def __repr__(self):
         return 'VTy(%s)' % self.t
@@ -82,8 +85,9 @@ class VBox(Value):
     """a generator box (monoidal.Box and subclasses), opaque: dom/cod/kind are UF of its term"""
     kind = 'box'
 
-    def __init__(self, t):
+    def __init__(self, t, extra=None):
         self.t = t
+        self.extra = dict(extra or {})      # attributes of subclasses (e.g. Curry.diagram / n_wires / left)
 
     def __repr__(self):
         return 'VBox(%s)' % self.t
